@@ -499,19 +499,41 @@ def _r5_r6(ctx):
         ctx.check(nsw >= 2 and not foreign, "R6", "a-name-is-refused-for-its-own-shape", ctx.where(b, foreign[0][1] if foreign else None),
                   "a condition that makes the name decoder give up reads the parser's `%s`: state carried from one name to the next makes "
                   "the decoder refuse messages the encoder is entitled to write" % (foreign[0][0] if foreign else "-"))
-        # R5 (decoder side): total name length bounded by 255
+        # R5 (decoder side): total name length bounded by 255, the terminating root octet included.  The decoder keeps a running
+        # total of label octets plus their length octets; the largest total it lets through, plus one for the root octet unless the
+        # count starts at 1, must not exceed 255.
         def m255(d):
             if d[0] == "bin" and d[1] in ("Gt", "Ge", "Lt", "Le"):
-                return any(norm(x)[0] == "const" and norm(x)[1] in (255, 256, 254, 253) for x in (d[2], d[3]))
+                return any(const_value(x) is not None and 200 <= const_value(x) <= 300 for x in (d[2], d[3])) and \
+                    not all(const_value(x) is not None for x in (d[2], d[3]))
             return False
-        bounded = False
+        start = None
+        for g in [P.bodies[g] for g in P.bodies if g.endswith("parse::PktParser::<'l>::get_domain")]:
+            Tg = terms(P, g)
+            for bb2, tm2 in g.calls():
+                if callee_name(tm2) == f and len(tm2["args"]) >= 3:
+                    bp = borrowed_place(Tg, tm2["args"][2], bb2, len(g.blocks[bb2]["stmts"]))
+                    if bp is not None and len(bp) == 1:
+                        inits = [const_int(st["rv"]["op"].get("k")) for _, _, st in g.stmts() if tuple(st["p"]) == bp and st.get("rv") and st["rv"]["k"] == "use"
+                                 and st["rv"]["op"].get("k")]
+                        if len(inits) == 1 and inits[0] is not None:
+                            start = inits[0]
+        largest = []
         for x in P.family(f) + [P.bodies[g] for g in P.bodies if g.endswith("parse::PktParser::<'l>::get_domain")]:
             for sbb, d, te, fe in bool_switches(P, x, m255):
-                bounded = True
+                cfirst = const_value(d[2]) is not None
+                k = const_value(d[2]) if cfirst else const_value(d[3])
+                op = d[1]
+                if cfirst:      # K op x  ==  x op' K
+                    op = {"Gt": "Lt", "Ge": "Le", "Lt": "Gt", "Le": "Ge"}[op]
+                # the branch that goes on decoding is the one that does not return the error: with `x > K` / `x >= K` it is the false
+                # edge, with `x < K` / `x <= K` the true edge
+                largest.append({"Gt": k, "Ge": k - 1, "Lt": k - 1, "Le": k}[op])
+        bounded = bool(largest) and start in (0, 1) and max(largest) + (1 - start) <= 255
         ctx.check(bounded, "R5", "decoded-name-length<=255" if bounded else "decoded-name-length-unbounded", ctx.where(b),
-                  "RFC 1035 2.3.4 limits a name to 255 octets; the decoder follows up to the depth bound of pointers without limiting the "
-                  "expanded length, so a crafted reply yields names of tens of kilobytes and the encoder's `rdata.len() as u16` "
-                  "RDLENGTH casts wrap (corrupting the relayed message)")
+                  "RFC 1035 2.3.4 limits a name to 255 octets on the wire, root octet included: the running total (starting at %s) is let through "
+                  "up to %s; a longer name is relayed as a malformed message, and without any limit a crafted reply yields names of tens "
+                  "of kilobytes and the encoder's `rdata.len() as u16` RDLENGTH casts wrap" % (start, max(largest) if largest else "anything"))
 
 
 def _weights(t, depth=0):
